@@ -19,6 +19,10 @@ CLAIMED = {
    text='Decides for edb/server/compiler_pool that the five state components keep one slot order from the sender (both arms) through worker entry signatures, __sync__ calls and stores, to the compiler entry points (both worker flavours and the multi-tenant header); that each component is compared with its own belief and sent iff its belief update is recorded; that the belief is acknowledged only after a completed request and never on FailedStateSync; that the belief merge tests None, not truthiness; that LAST_STATE writers agree with _last_pickled_state writers and the reuse marker / by-reference schema are sent only under the matching identity test. Multi-failure histories are not decided.',
    note=NOTE + ' Component identity is by name after stripping _pickle/_unpacked and owner prefixes.',
    technique='static analysis: table extraction and agreement between sender, receivers and callee signatures; CFG dominance for the acknowledgement discipline; contradiction rule (None-guard vs truthiness merge)'),
+ 'C09': dict(
+   text='Decides structural clauses of the compiler-side transaction state: snapshot-field agreement of rollback/commit down to TransactionState; implicit-transaction guards dominate savepoint commands and COMMIT; _state0 frozen and updates persistent; statement class / state method / TxAction / SQL verb agreement per branch and exhaustiveness over Transaction subclasses; COMMIT reads if-updated values before the baseline reset; savepoint loop orderings (test-before-erase vs erase-before-test, newest-first, raise on no match); re-synchronisation shape incl. sync before compile; migration blocks pair their savepoint. Same-named savepoint stack behaviour and the Cython dbview are not decided.',
+   note=NOTE,
+   technique='static analysis: table extraction (class/method/enum/SQL-literal word agreement), CFG dominance and ordering queries, field-set agreement across call chains'),
 }
 
 _PENDING = 'check not built yet in this round (design in DESIGN.md §3); will be claimed when its rules are armed'
